@@ -36,6 +36,7 @@ struct C19Case {
   std::vector<FsSpec> fs;
   std::vector<C19Op> ops;
   std::vector<C19Fault> faults;
+  bool secure = false;            // the first pass runs as a set-ID process (AT_SECURE=1, euid != uid); the replay pass always runs the other way round
   int premain_world = -1;         // part "premain": which of the pre-main worlds (executed by a global constructor before main) is judged
   int chunk = 4096, chunk2 = 0;   // chunk2 != 0: run the world a second time with this chunk size and compare
 };
